@@ -19,7 +19,9 @@ RULE = ('formulas IF/AND/OR/NOT nested to depth 4 over constants, references '
         'Python error) at every unselected position; AND/OR with 1-6 '
         'arguments mixing scalars and ranges with blanks.  non-trivial = the '
         'unselected branch is poisoned or carries a spy; distinct by '
-        '(formula shape, truth assignment)')
+        '(formula shape, truth assignment).  A sample is evaluated again on '
+        'the same Evaluator after A1:A4 were re-assigned (or cleared) through '
+        'set_cell_value')
 ASSUMPTIONS = [
     'text conditions and AND/OR over blanks only are not generated '
     '(statement silent)',
@@ -27,7 +29,8 @@ ASSUMPTIONS = [
     'are accepted',
 ]
 FLOORS = {'if_cases': 500, 'poisoned_unselected': 200, 'andor_cases': 500,
-          'not_cases': 50, 'spy_calls': 1000, 'omitted_else': 20}
+          'not_cases': 50, 'spy_calls': 1000, 'omitted_else': 20,
+          'reassigned_cases': 100}
 ANCHOR_FUNCS = {
     'xlcalculator/xlfunctions/logical.py': ['IF', 'AND', 'OR', 'NOT'],
     'xlcalculator/ast_nodes.py': ['FunctionNode.eval'],
@@ -320,6 +323,38 @@ def run(ctx):
                 log = tuple(spies.take())
                 ctx.event('spy_calls', len(log))
                 judge(ctx, it, asg, got, log, lr)
+            # ---- the same model under re-assigned cells: A1:A4 are changed
+            # through set_cell_value (None clears a cell) and a sample of the
+            # formulas is evaluated again on the SAME Evaluator; the oracle is
+            # the reference for the cells that are current at that moment
+            others = [a for a in by if a != asg and not any(
+                isinstance(v, str) for v in a + asg)]
+            if not others:
+                continue
+            asg2 = rng.choice(others)
+            try:
+                for i, v in enumerate(asg2):
+                    if v != asg[i] or type(v) is not type(asg[i]):
+                        ev.set_cell_value(f'{S}!A{i + 1}', v)
+            except Exception as e:  # noqa
+                ctx.fail(f'set_cell_value raised {e!r} for A1:A4={asg2}',
+                         {'cells_before': asg, 'cells_after': asg2},
+                         monitor='construction', group='set')
+                continue
+            wb2 = ref.Workbook({(S, 1, i + 1): v for i, v in enumerate(asg2)
+                                if v is not None})
+            wb2.cells[(S, 26, 1)] = wb.cells[(S, 26, 1)]
+            wb2.cells[(S, 25, 1)] = wb.cells[(S, 25, 1)]
+            lr2 = LazyRef(wb2)
+            pick = rng.sample(range(len(items)), min(len(items), 25))
+            for j in pick:
+                it = dict(items[j], reassigned_from=asg)
+                a = f'{S}!P{j + 1}'
+                spies.take()
+                got = subject.outcome_of(lambda: ev.evaluate(a))
+                log = tuple(spies.take())
+                ctx.event('reassigned_cases')
+                judge(ctx, it, asg2, got, log, lr2)
 
     def judge(ctx, it, asg, got, log, lr):
         ast = it['ast']
@@ -373,9 +408,12 @@ def run(ctx):
             kind = 'value'
             if got[0] == 'value' and any(a[0] == got[1] for a in adm):
                 kind = 'spy-log'
-            ctx.fail(f'{text} with A1:A4={asg}: observed {got} with spy log '
-                     f'{log}; admissible (value, log): {adm}',
+            was = it.get('reassigned_from')
+            note = f' (same model, cells were {was} before)' if was else ''
+            ctx.fail(f'{text} with A1:A4={asg}{note}: observed {got} with spy '
+                     f'log {log}; admissible (value, log): {adm}',
                      {'formula': text, 'cells': asg, 'observed': got,
+                      'cells_before_reassignment': was,
                       'spy_log': log, 'admissible': adm,
                       'poison': it.get('poison')},
                      kf=classify(it, got), monitor='lazy-selection',
